@@ -19,8 +19,8 @@ RULE = ('results of every kind (equal, approx-equal, Student, Bonferroni, '
         'read-only operations (bool, repr, oracles, counts and proportions, '
         'per-key views, table / full-table / plot / full representation at '
         'every verbosity, Rst.format_result, fingerprint, pickle round trip, '
-        'copy, deepcopy, re-evaluation); distinct = distinct (kind, verdict, '
-        'operation) triples, non-trivial when the operation ran to completion')
+        'copy, deepcopy, re-evaluation); distinct = distinct (kind, shape, '
+        'verdict, sequence of operations that ran to completion)')
 DECIDING = ['results', 'operations_run', 'digests_compared',
             'reevaluations_compared']
 ASSUMPTIONS = ['"unchanged" is decided by a deep digest of the object graph '
@@ -104,12 +104,13 @@ def run_case(seed, idx, rec):
         rec.violation(f'changed-by-bool-{kind}', 'digest unstable', case)
     ops = [rng.choice(names) for _ in range(rng.randint(1, 12))]
     done = []
+    ran = []
     for op in ops:
         short = op.split('/')[0]
         try:
             _OPS[op](res)
             rec.count('operations_run')
-            rec.seen((kind, verdict0, op))
+            ran.append(op)
         except Exception as err:  # pylint: disable=broad-except
             rec.count('operations_raised')
             rec.count(f'raised.{kind}.{short}.{type(err).__name__}')
@@ -124,6 +125,8 @@ def run_case(seed, idx, rec):
                           f'{what} changed by {op} after {done[:-1]} '
                           f'(verdict {verdict0} -> {verdict1})', case)
             dig0, verdict0 = dig1, verdict1
+    if ran:
+        rec.seen((kind, tuple(gen['shape']), verdict0, tuple(ran)))
     # evaluating again gives the same thing
     if kind not in ('failed',):
         try:
